@@ -4,6 +4,21 @@ HOOK_COMMITS = []
 NOT_APPLICABLE = {}
 
 CHECKS = {
+    'C01': {
+        'harnesses': ['harness.queue'],
+        'text': 'Bounded model checking of the real Environment/Event queue: every bounded sequence of schedule / schedule-in-the-past / '
+                'pause / unpause / cancel / step / run operations, also issued from inside event actions, with symbolic assets, delays, '
+                'priorities, run lengths and free tie-break weights, is explored path-exhaustively; an online reference queue checks that '
+                'each dispatched event is minimal for (time, -priority), the clock equals its time and never decreases, past scheduling '
+                'is rejected without effect, actions run at most once and run(d) executes exactly the live events due by t0+d.',
+    },
+    'C07': {
+        'harnesses': ['harness.queue'],
+        'text': 'Same harness as C01 restricted to schedule/pause/unpause/cancel/advance at non-zero symbolic times: after every operation '
+                'the real pending and paused sets must equal the reference (paused events withheld, resumed at original time + pause length, '
+                'cancelled events never run, later events unaffected, redundant calls no-ops), and after a final unpause-all + drain every '
+                'never-cancelled event has run exactly once at its reference time.',
+    },
     'C09': {
         'harnesses': ['harness.c09_pool'],
         'text': 'Bounded model checking of the real ResourceManager/ReservedResources: every sequence of N pool operations '
